@@ -441,6 +441,10 @@ more:
 		}
 		sem |= b < 0 || !b && neg;
 		sem |= !b << 1U;
+		if (UNLIKELY(b < -366)) {
+			/* out of range, and -b might not exist */
+			return 0;
+		}
 		b = b >= 0 ? b : -b;
 		break;
 	case ',':
